@@ -99,9 +99,10 @@ ROWS = [
      "both range ends are byte offsets obtained from char_indices().nth() on the same string "
      "(or its len()), start <= end because the character column is ordered",
      {"backslice": [1, "char_indices"]}),
-    (r"^lang::lex::BasicLexer::number/assert:Overflow\(Sub,i32\)#1$", "reasoned",
-     "undoes the +8 added for the same D in this iteration; a signed 32-bit counter of at most "
-     "8 * MAX_LINE_LEN cannot underflow", G(" Eq const:'D')")),
+    (r"^lang::lex::BasicLexer::number/assert:Overflow\(Sub,i32\)#1$", "bounded",
+     "undoes the +8 added for the same D in this iteration; a signed 32-bit counter whose "
+     "magnitude is at most 8 * MAX_LINE_LEN cannot underflow however the subtraction is guarded",
+     None),
     (r"^lang::lex::BasicLexer::number/assert:Overflow\(Add,i32\)#\d$", "bounded",
      "digit counter grows by at most 8 per character of a line of at most MAX_LINE_LEN bytes",
      None),
